@@ -1,0 +1,20 @@
+// Copyright (c) 2026 10X Genomics, Inc. All rights reserved.
+
+//go:build verif
+
+package util
+
+// VerifSignalHandlerObjects returns the objects currently registered with
+// RegisterSignalHandler, so that the external verification harness can play
+// the part of Suicide / the signal goroutine for ONE simulated process (call
+// HandleSignal on the objects that process registered) without terminating
+// the harness.  This file is only compiled with `-tags verif`.
+func VerifSignalHandlerObjects() []HandlerObject {
+	signalHandler.mutex.Lock()
+	defer signalHandler.mutex.Unlock()
+	objs := make([]HandlerObject, 0, len(signalHandler.objects))
+	for o := range signalHandler.objects {
+		objs = append(objs, o)
+	}
+	return objs
+}
